@@ -14,7 +14,7 @@ import numpy as np
 from common import f2b, b2f
 
 LEVEL = 'proof'
-MODULES = ['C13']
+MODULES = ['C13', 'C13b']
 
 
 def vecs(ans):
@@ -108,9 +108,15 @@ def gen_pipeline(rng):
                 args.append('--taper-wire=%d,%d' % (t, rng.choice([1, 2, 3])))
             else:
                 args.append('-w%d,%d,%s,0.001' % (t, n, ','.join(repr(x) for x in p1 + p2)))
-        else:
+        elif rng.random() < 0.5:
             n = rng.randint(3, 8)
             args.append('-a%d,%d,%r,%r,%r,0.001' % (t, n, rng.uniform(0.5, 2), rng.choice([0.0, 30.0]), rng.choice([90.0, 180.0, 270.0])))
+        else:
+            # helices from a single segment (a third of a turn at most per segment) to several turns, both senses
+            n = rng.choice([1, 2, 2, 3, 4, 6, 9])
+            turns = rng.uniform(0.15, 0.33) * n
+            ln = rng.uniform(0.3, 1.5)
+            args.append('-H%d,%d,%r,%r,0.001,%r,%r' % (t, n, ln, ln / turns * rng.choice([1, -1]), rng.uniform(0.2, 0.6), rng.uniform(0.2, 0.6)))
     rots, trans, scales = [], [], []
     for _ in range(rng.randint(0, 2)):
         key = rng.choice([1, 2, 3, 0.5, 2, 10, 5, -2, -1, 20, 100, 10.5, 9])
